@@ -1256,8 +1256,8 @@ def check_any_get(ctx, tu, R5):
                     stmts.append(nn)
                     if nn.get('kind') in ('CXXMemberCallExpr', 'CallExpr'):
                         cf = tu.callee_fn(nn)
-                        if cf is not None and cf.get('rec') == ANY and cf['id'] not in seen and len(seen) < 6 and \
-                                cf['q'].split('::')[-1] not in ('valid',):
+                        if cf is not None and (cf.get('rec') == ANY or (cf.get('rec') or '').startswith(ANY + '::')) and \
+                                cf['id'] not in seen and len(seen) < 6 and cf['q'].split('::')[-1] not in ('valid',):
                             seen.add(cf['id'])
                             work.append(cf)
             calls = [tu.sd(nn).get('q', '') for nn in stmts if nn.get('kind') in ('CXXMemberCallExpr', 'CallExpr', 'CXXOperatorCallExpr')]
@@ -1272,6 +1272,21 @@ def check_any_get(ctx, tu, R5):
             if cached and not has_holder_type:
                 has_holder_type = True       # compared with a cached std::type_info member; R-C09-10 decides that it is kept current
             wrong = None
+            # a type recorded in the holder itself: every holder constructor must record typeid of its own payload type
+            hfields = {}
+            for fid in seen:
+                g2 = tu.functions[fid]
+                if (g2.get('rec') or '').startswith(ANY + '::'):
+                    for fl in tu.records.get(g2.get('recid'), {}).get('fields', []):
+                        if 'type_info' in fl['ct']:
+                            hfields[fl['name']] = g2.get('recid')
+            hcached = [nn.get('name') for nn in stmts if nn.get('kind') == 'MemberExpr' and nn.get('name') in hfields]
+            if hcached and not has_holder_type:
+                recorded = _holder_records_own_type(tu)
+                if recorded is True:
+                    has_holder_type = True
+                elif recorded is not None:
+                    wrong = recorded
             for nn in stmts:
                 if nn.get('kind') == 'BinaryOperator' and nn.get('opcode') in ('==', '!=', '<', '>', '<=', '>='):
                     ks = tu.kids(nn)
@@ -1297,6 +1312,40 @@ def check_any_get(ctx, tu, R5):
                 ctx.undecided(R5, inst, 'is<T>() is not recognised as `valid() && typeid(T) equals the stored type` (valid:%s compare:%s typeid:%s '
                               'holder:%s)' % (has_valid, has_cmp, has_typeid, has_holder_type), tu.fn_loc(f))
     ctx.floor(R5, n, 4, 'get<T>/is<T> instantiations in drivers/wrappers.cpp')
+
+
+def _holder_records_own_type(tu):
+    """Any::handle<T> constructors that hand a std::type_info to their base: True when every one passes typeid(T) of its own payload
+    type T, a text when one passes the typeid of another type, None when the shape is not recognised"""
+    n = 0
+    for f in tu.functions.values():
+        if f['dep'] or not f.get('ctor') or not (f.get('rec') or '').startswith(ANY + '::handle') or (f.get('rec') or '').endswith('handle_base'):
+            continue
+        rec = tu.records.get(f.get('recid'), {})
+        if not rec.get('targs'):
+            continue
+        fd = tu.nodes.get(f['id'])
+        if fd is None or tu.body(f) is None:
+            continue
+        if f['fty'].count(rec.get('name', '\0')) and '&' in f['fty'] and len(f.get('params', [])) == 1 and \
+                'handle<' in f['params'][0].get('ct', f['params'][0].get('type', '')):
+            continue        # copy / move constructor of the holder
+        tids = [x for x in tu.walk(fd) if x.get('kind') == 'CXXTypeidExpr']
+        if not tids:
+            return None
+        payload = rec['targs'][0]['t']
+        for t in tids:
+            arg = (t.get('typeArg') or {}).get('qualType') or (t.get('typeArg') or {}).get('desugaredQualType')
+            if arg is None:
+                ks = tu.kids(t)
+                arg = ks[0].get('type', {}).get('qualType') if ks else None
+            if arg is None:
+                return None
+            norm = lambda x: re.sub(r'\b(class|struct|const) ', '', x).replace(' ', '')
+            if norm(arg) != norm(payload) and norm(arg) not in ('T', 'value_type'):
+                return 'the holder for payload type %s records typeid(%s)' % (payload, arg)
+        n += 1
+    return True if n else None
 
 
 # ============================================================================================
